@@ -107,9 +107,11 @@ def check_doc(case, acc):
     return
   times = case.get("times") or probe_times(spec)
   nontrivial = False
-  for t in times:
+  sig = ISD.significant_times(doc)
+  # every snapshot is taken twice: plainly and with the precomputed SignificantTimes object (whose caches must not change a value)
+  for t, accel in [(t, a) for t in times for a in (False, True)]:
     try:
-      isd = ISD.from_model(doc, t)
+      isd = ISD.from_model(doc, t, sig) if accel else ISD.from_model(doc, t)
     except ValueError as e:
       if "ruby" in str(e).lower():
         acc.count("ruby-snapshot-raises")
@@ -140,6 +142,8 @@ def check_doc(case, acc):
           if not approx_eq(w, got):
             src, gov = _provenance(spec, reg.get_id(), e.get_id(), p, t)
             clause, disc = _signature(p, k, src, gov, spec, reg.get_id(), t)
+            if accel:
+              clause = clause.replace("C03.", "C03.accel.", 1)
             acc.violation(clause, disc, {"spec": spec, "times": [t]}, observed=got, expected=w,
                           note=f"{p} of {k} '{e.get_id()}' in region {reg.get_id()} at t={t}; source={src}")
           elif w != ref_default(p):
@@ -197,7 +201,8 @@ def _fam(name, n, dec, note=""):
 
 
 def _chain(extra_span=False):
-  spec = docgen.chain_doc({}, True, region_on="body")
+  # the paragraph begins at 1/2: animation steps on p and span are then relative to an element with a begin of its own
+  spec = docgen.chain_doc({"p": (F(1, 2), None)}, True, region_on="body")
   d = spec["body"]["c"][0]
   p = d["c"][0]
   s = p["c"][0]
